@@ -7,16 +7,25 @@ V='/verif'
 def main():
     only = sys.argv[1:] 
     pats = sorted(glob.glob(V+'/selftest/mutants/*.patch'))
+    # seeded changes from independent sub-agents that the checks are known to detect
+    seeds = []
+    for mf in sorted(glob.glob(V+'/seeded/*/meta.json')):
+        m = json.load(open(mf))
+        if str(m.get('detected_by_check','')).startswith('yes'):
+            seeds.append((os.path.dirname(mf)+'/patch.diff', m['id'], m['property']))
     ok = True
     results=[]
-    for p in pats:
-        name=os.path.basename(p)
-        if only and not any(o in name for o in only): continue
-        hdr=open(p).read().split('\n')
-        exp=[l for l in hdr if l.startswith('# expect:')]
-        if not exp:
-            print('SKIP (no expect)',name); continue
-        _,prop,obl = exp[0].split(None,3)[1:4] if False else (None,)+tuple(exp[0].split()[2:4])
+    items = [(p, os.path.basename(p), None) for p in pats] + [(sp, sid+'-seed', prop) for sp, sid, prop in seeds]
+    for p, name, sprop in items:
+        if only and not any(name.startswith(o) or o in name for o in only): continue
+        if sprop is not None:
+            prop, obl = sprop, ''
+        else:
+            hdr=open(p).read().split('\n')
+            exp=[l for l in hdr if l.startswith('# expect:')]
+            if not exp:
+                print('SKIP (no expect)',name); continue
+            prop,obl = tuple(exp[0].split()[2:4])
         d=tempfile.mkdtemp(prefix='govc-st-',dir='/var/tmp')
         try:
             subprocess.run(['rsync','-a','--exclude','.git','/repo/',d+'/'],check=True)
